@@ -3,6 +3,7 @@ package incr
 import (
 	"context"
 	"fmt"
+	"sync"
 	"sync/atomic"
 )
 
@@ -81,9 +82,19 @@ type varIncr[T any] struct {
 	value T
 	// equal, when set, decides whether a [Set] is a change at all. It is nil for [Var]
 	// and set by [VarEqual]; see there for why this cannot simply be the default.
-	equal                       func(a, b T) bool
+	equal func(a, b T) bool
+	// pendingMu guards the two fields below: under ParallelStabilize a node function
+	// may Set this var while a worker of the same height block recomputes it.
+	pendingMu                   sync.Mutex
 	setDuringStabilizationValue T
 	setDuringStabilization      bool
+}
+
+// pending returns the value set during the running stabilization, if there is one.
+func (vn *varIncr[T]) pending() (T, bool) {
+	vn.pendingMu.Lock()
+	defer vn.pendingMu.Unlock()
+	return vn.setDuringStabilizationValue, vn.setDuringStabilization
 }
 
 func (vn *varIncr[T]) Stale() bool {
@@ -99,13 +110,17 @@ func (vn *varIncr[T]) Set(v T) {
 	// is much cheaper than letting the graph work that out downstream: a cutoff node
 	// still has to recompute this var and itself before deciding nothing happened,
 	// whereas this costs one comparison and touches the graph not at all.
-	if vn.equal != nil && !vn.setDuringStabilization && vn.equal(vn.value, v) {
-		return
+	if vn.equal != nil {
+		if _, isPending := vn.pending(); !isPending && vn.equal(vn.value, v) {
+			return
+		}
 	}
 	graph := GraphForNode(vn)
 	if atomic.LoadInt32(&graph.status) == StatusStabilizing {
+		vn.pendingMu.Lock()
 		vn.setDuringStabilizationValue = v
 		vn.setDuringStabilization = true
+		vn.pendingMu.Unlock()
 
 		graph.setDuringStabilizationMu.Lock()
 		graph.setDuringStabilization[vn.Node().id] = vn
@@ -122,8 +137,8 @@ func (vn *varIncr[T]) Update(fn func(T) T) {
 	// read through the pending value if one is set, so that two updates within a
 	// single stabilization compose rather than the second discarding the first
 	current := vn.value
-	if vn.setDuringStabilization {
-		current = vn.setDuringStabilizationValue
+	if pendingValue, isPending := vn.pending(); isPending {
+		current = pendingValue
 	}
 	vn.Set(fn(current))
 }
@@ -139,6 +154,8 @@ func (vn *varIncr[T]) Stabilize(ctx context.Context) error {
 	// its dependents, in the middle of the very pass the set was deferred out of. The
 	// recompute cycle stamps recomputedAt with the running pass's number before it calls
 	// Stabilize, whereas stabilizeEnd applies deferred sets after that number has moved on.
+	vn.pendingMu.Lock()
+	defer vn.pendingMu.Unlock()
 	if vn.setDuringStabilization && vn.n.recomputedAt != GraphForNode(vn).stabilizationNum {
 		var zero T
 		vn.value = vn.setDuringStabilizationValue
